@@ -123,6 +123,18 @@ fn targets(tier: Tier) -> Vec<Target> {
     let rnd: Vec<u8> = (0..tier.pick(2000u32, 6000u32)).map(|i| (i.wrapping_mul(2654435761).rotate_left(7) ^ (i >> 3)) as u8).collect();
     t.push(enc_t(&format!("lzma_compress {} pseudo-random bytes [marker]", rnd.len()), Fmt::Lzma, EncSize::HeaderNone, rnd.clone()));
     t.push(enc_t(&format!("lzma_compress {} pseudo-random bytes [size]", rnd.len()), Fmt::Lzma, EncSize::HeaderSome(rnd.len() as u64), rnd.clone()));
+    // inputs for which the range coder emits a group of bytes right at the 64 KiB mark of its output (found on the reference
+    // encoder, see C04), and inputs above 64 KiB whose source hands over a short first piece
+    for w in super::c04::block_boundary_witnesses(65536, 1, 1) {
+        t.push(enc_t(&format!("[fault-free only] lzma_compress {} bytes whose coded form has a byte group at its 64 KiB mark", w.len()), Fmt::Lzma, EncSize::HeaderNone, w));
+    }
+    {
+        let big: Vec<u8> = (0..70_000u32).map(|i| (i.wrapping_mul(2246822519) >> 19) as u8).collect();
+        let short_first = Rd { cuts: vec![10, usize::MAX], ..Rd::default() };
+        for fmt in [Fmt::Lzma2, Fmt::Xz] {
+            t.push(Target { label: format!("[fault-free only] {:?} compress 70000 bytes, source hands over 10 bytes first", fmt), base: Case::Enc { fmt, size: EncSize::Skip, input: Hex(big.clone()), rd: short_first.clone(), sk: Sk::default() }, must_flush: false });
+        }
+    }
     t.push(enc_t("lzma_compress empty input", Fmt::Lzma, EncSize::HeaderNone, vec![]));
     t.push(enc_t("lzma_compress 1 byte", Fmt::Lzma, EncSize::HeaderSome(1), vec![0xFF]));
     t.push(enc_t("lzma2_compress empty input", Fmt::Lzma2, EncSize::Skip, vec![]));
@@ -183,6 +195,17 @@ pub fn run(tier: Tier) -> i32 {
         if t.must_flush && !o.flushed_all {
             ctx.violation(&t.base, &format!("{}: on success every byte handed to the sink is followed by a flush of the sink", t.label), &o, None);
         }
+        // encoders: "every output byte has been handed to the sink" - what the sink holds decodes back to the input
+        if let Case::Enc { fmt, size, input, .. } = &t.base {
+            let opts = match size {
+                EncSize::Skip if *fmt == Fmt::Lzma => Opts { size: crate::cases::SizeOpt::Provided(Some(input.0.len() as u64)), ..Opts::default() },
+                _ => Opts::default(),
+            };
+            let (v, back, _) = crate::cases::dec_plain(*fmt, &opts, &o.out.0);
+            if !(v.is_ok() && back == input.0) {
+                ctx.violation(&t.base, &format!("{}: the {} bytes handed to the sink decode back to the {} input bytes (got {:?}, {} bytes)", t.label, o.out.0.len(), input.0.len(), v, back.len()), &o, None);
+            }
+        }
         let c1 = run_case(&with_env(&t.base, &inert_of(&t.base), &Sk { chunk: 1, ..Sk::default() }));
         bases.push(Baseline { out: o.out.0.clone(), reads: o.reads, writes: o.writes, flushes: o.flushes, writes_c1: c1.writes });
         ctx.sample(json!({"target": t.label, "fault_free": {"reads": o.reads, "writes": o.writes, "flushes": o.flushes, "output_bytes": o.out.0.len()}}));
@@ -199,10 +222,13 @@ pub fn run(tier: Tier) -> i32 {
     let mut jobs: Vec<Job> = Vec::new();
     for (ti, t) in ts.iter().enumerate() {
         let b = &bases[ti];
+        if t.label.starts_with("[fault-free only]") {
+            continue; // large inputs: only the fault-free run (complete, decodable output) is judged
+        }
         let is_stream = matches!(t.base, Case::Stream { .. });
         if !is_stream {
             for k in 0..b.reads {
-                jobs.push(Job { ti, rd: Some(Rd { cuts: vec![usize::MAX], fail_at: Some(k), ..Rd::default() }), sk: Sk::default(), fault: true, what: format!("read/fill_buf call #{} of {} fails", k, b.reads) });
+                jobs.push(Job { ti, rd: Some(Rd { fail_at: Some(k), ..inert_of(&t.base) }), sk: Sk::default(), fault: true, what: format!("read/fill_buf call #{} of {} fails", k, b.reads) });
             }
         }
         for k in 0..b.writes {
@@ -270,6 +296,8 @@ pub fn run(tier: Tier) -> i32 {
 fn inert_of(c: &Case) -> Rd {
     match c {
         Case::Stream { .. } => Rd::default(),
+        // the reader of the fault-free run (call counting without cuts, or the target's own way of handing over the input)
+        Case::Dec { rd, .. } | Case::Enc { rd, .. } => rd.clone(),
         _ => Rd { cuts: vec![usize::MAX], ..Rd::default() },
     }
 }
